@@ -230,6 +230,16 @@ func (OracleC08) failure(x *Exec, op *Op, pre *Snap, msg string) {
 			}
 		}
 	}
+	// Listed finding F-C04a (consequence): once an asset's accounting has collapsed (staked
+	// total driven negative by an over-withdrawal) share conversions yield negative amounts
+	if strings.Contains(msg, "negative") {
+		for _, dn := range pre.AssetOrder {
+			if x.PrecisionCollapsed(dn) && (!pre.Assets[dn].TotalTokens.IsPositive() || pre.Assets[dn].TotalValidatorShares.IsNegative()) {
+				x.KnownFinding("F-C04a")
+				return
+			}
+		}
+	}
 	fs := op.Frac
 	if x.L.LastSlashFrac != nil {
 		fs = x.L.LastSlashFrac.FloatString(18)
